@@ -157,18 +157,26 @@ func (q *qosRun) observe(op sx.L, dropUid uint64) sx.L {
 	if q.s != nil && q.s.MC.Closed() {
 		closed = true
 	}
+	// drops: the in-flight limit and identifier exhaustion count in Info.InflightDropped (and, since 17f8a7b, also
+	// call OnPublishDropped); a full outbound queue only calls OnPublishDropped
 	drops := sx.L{}
 	evs := q.b.Rec.Drain()
+	nEv := int64(0)
 	for _, e := range evs {
 		if e.Name == "PublishDropped" && e.Client == "s" {
-			drops = append(drops, sx.N(uidOf(e.Pk.Payload)))
+			nEv++
 		}
 		if e.Name == "PANIC" {
 			fmt.Fprintln(os.Stderr, "PANIC in broker:", e.Extra)
 		}
 	}
 	dc := q.dropCount()
-	for ; q.lastDrop < dc; q.lastDrop++ {
+	counted := dc - q.lastDrop
+	q.lastDrop = dc
+	for n := counted; n > 0; n-- {
+		drops = append(drops, sx.N(dropUid))
+	}
+	for n := nEv - counted; n > 0; n-- {
 		drops = append(drops, sx.N(dropUid))
 	}
 	q.evPos = len(q.b.Rec.All())
@@ -299,12 +307,13 @@ func (q *qosRun) publishP(k int, t int, qos byte, mei uint32) {
 	}
 	// queue-full is reconstructed from the PublishDropped event
 	evs := q.b.Rec.All()
-	qfull := false
+	nDropEv := int64(0)
 	for i := q.evPos; i < len(evs); i++ {
 		if evs[i].Name == "PublishDropped" && evs[i].Client == "s" {
-			qfull = true
+			nDropEv++
 		}
 	}
+	qfull := nDropEv > q.dropCount()-q.lastDrop
 	if qfull {
 		op[8] = sx.N(1)
 	}
@@ -556,6 +565,26 @@ func (q *qosRun) runScript(c qosCfg) {
 	case "c11f": // retransmission at the limit
 		q.publishS(2, 3, false, 0)
 		q.publishS(2, 3, true, q.open2[0].uid)
+	case "c11g": // after PUBREC 0x91 the client gives the exchange up, the broker keeps its unit of receive quota
+		q.publishS(2, 3, false, 0)
+		q.publishS(2, 3, true, q.open2[0].uid)
+		q.publishS(2, 4, false, 0)
+		q.publishS(1, 5, false, 0)
+	case "c11h": // an own exchange removed by the acknowledgement of a broker id never returns its unit
+		q.publishP(0, 0, 1, 0)
+		q.publishS(2, 1, false, 0)
+		q.ackS(packets.Puback, 1, 0)
+		q.ackS(packets.Pubrel, 1, 0)
+		q.publishS(1, 7, false, 0)
+	case "c10d": // an identifier is handed out again while the released held-back message is unacknowledged
+		q.publishP(0, 0, 1, 0)
+		q.publishP(0, 0, 1, 0)
+		q.ackS(packets.Puback, 1, 0)
+		q.disconnectS(false)
+		q.reconnect(c, false)
+		q.publishP(0, 0, 1, 0)
+		q.publishP(0, 0, 1, 0)
+		q.ackS(packets.Puback, 1, 0)
 	case "c12a": // deferred messages leave in arbitrary order
 		q.publishP(0, 0, 1, 0)
 		q.publishP(0, 0, 1, 0)
@@ -721,7 +750,8 @@ func engQos(seed int64, tier string, args []string, out *sx.Out) {
 		}
 	}
 	rng := rand.New(rand.NewSource(seed))
-	scripts := []string{"c08", "c08r", "c09", "c10a", "c10b", "c10c", "c11a", "c11b", "c11c", "c11d", "c11e", "c11f", "c12a", "c12b"}
+	scripts := []string{"c08", "c08r", "c09", "c10a", "c10b", "c10c", "c10d", "c11a", "c11b", "c11c", "c11d", "c11e", "c11f",
+		"c11g", "c11h", "c12a", "c12b"}
 	nrandom := 230
 	if tier == "thorough" {
 		nrandom = 6000
@@ -750,6 +780,12 @@ func engQos(seed int64, tier string, args []string, out *sx.Out) {
 			c.script = s
 			if s == "c12a" || s == "c12b" || s == "c09" {
 				c.srvrm = 4
+			}
+			if s == "c08" || s == "c08r" || s == "c11g" {
+				c.srvrm = 2
+			}
+			if s == "c10d" {
+				c.maxpid = 2
 			}
 			emit(c)
 			c.steps = 12
